@@ -214,7 +214,8 @@ def rule_pub(ctx):
             continue
         seen.add(fi)
         for n_ in ast.walk(fi.node):
-            nm = n_.func.attr if isinstance(n_, ast.Call) and isinstance(n_.func, ast.Attribute) else (n_.attr if isinstance(n_, ast.Attribute) and isinstance(n_.ctx, ast.Store) else None)
+            # calls, property stores, and references to bound methods that are called through a variable (strategy objects)
+            nm = n_.attr if isinstance(n_, ast.Attribute) else None
             for g in byname.get(nm, []) if nm else []:
                 todo.append(g)
     n = 0
